@@ -99,8 +99,14 @@ def bitfield_case(cid, family, base, fields, default=None, debug=False, helpers=
                 default=default, debug=debug, helpers=list(helpers), tags=list(tags), seeded=seeded, vis=vis, doc=doc)
 
 
-def default_spec(value, form="lit", syntax="=", radix="hex"):
-    return dict(value=value, form=form, syntax=syntax, radix=radix)
+def default_spec(value, form="lit", syntax="=", radix="hex", text=None, const_name=None):
+    """text: exact literal spelling to emit (must denote `value`); const_name: name of the named constant"""
+    d = dict(value=value, form=form, syntax=syntax, radix=radix)
+    if text is not None:
+        d["text"] = text
+    if const_name is not None:
+        d["const_name"] = const_name
+    return d
 
 
 # ------------------------------------------------------------------------------------------------
@@ -849,11 +855,32 @@ def handwritten_mixed():
     # doubly covered top storage bit, and a range as wide as the storage integer inside a list
     out.append(bitfield_case("mh_self2", "mixed", 8, [uint_field("a", [(4, 7), (6, 7)])], name="Reg", tags=["self-overlap"]))
     out.append(bitfield_case("mh_self3", "mixed", 8, [uint_field("a", [(0, 7), (0, 7)], access="r")], name="Reg", tags=["self-overlap"]))
-    out.append(bitfield_case("mh_self4", "mixed", 8, [uint_field("a", [(0, 3), (0, 7)])], name="Reg", tags=["self-overlap"]))
-    out.append(bitfield_case("mh_self5", "mixed", 32, [uint_field("a", [(0, 31), (31, 31)])], default=default_spec(0), name="Reg", tags=["self-overlap"]))
+    out.append(bitfield_case("mh_self4", "mixed", 8, [uint_field("a", [(0, 3), (0, 7)])], name="Reg", tags=["self-overlap", "compile-only"]))
+    out.append(bitfield_case("mh_self5", "mixed", 32, [uint_field("a", [(0, 31), (31, 31)])], default=default_spec(0), name="Reg", tags=["self-overlap", "compile-only"]))
     out.append(bitfield_case("mh_self6", "mixed", 64, [uint_field("a", [(0, 0), (0, 63)], access="r"), bool_field("b", 63)], name="Reg", tags=["self-overlap"]))
     out.append(bitfield_case("mh_self7", "mixed", 128, [uint_field("a", [(127, 127), (120, 127)])], name="Reg", tags=["self-overlap"]))
     out.append(bitfield_case("mh_self8", "mixed", 24, [uint_field("a", [(16, 23), (23, 23), (0, 3)])], name="Reg", tags=["self-overlap"]))
+    # decimal literals with leading zeros are decimal (010 == 10) in positions, strides and defaults
+    f1 = dict(uint_field("a", [(10, 17)]), attr_text="#[bits(010..=017, rw)]")
+    f2 = dict(bool_field("b", 20), attr_text="#[bit(020, rw)]")
+    f3 = dict(uint_field("c", [(1, 1), (7, 9)]), attr_text="#[bits([01, 007..=09], rw)]")
+    f4 = dict(uint_field("d", [(24, 25)], array=arr(3, 10)), attr_text="#[bits(024..=025, rw, stride = 010)]")
+    out.append(bitfield_case("mh_lead0", "mixed", 64, [f1, f2, f3, f4], default=default_spec(100, text="0100"), name="Reg"))
+    out.append(bitfield_case("mh_lead0b", "mixed", 32, [dict(f1), dict(f2)], default=default_spec(100, text="0100", syntax=":"), name="Reg"))
+    out.append(bitfield_case("mh_lead0c", "mixed", 14, [uint_field("a", [(0, 3)])], default=default_spec(12, text="0_012", syntax=":"), name="Reg"))
+    out.append(bitfield_case("mh_lead0d", "mixed", 128, [uint_field("a", [(0, 3)])], default=default_spec(777000, text="00_777_000"), name="Reg"))
+    # named default constants whose names also occur inside generated code
+    for k, cname in enumerate(("MAX_VALUE", "ZERO", "DEFAULT_RAW_VALUE", "MASK", "VALUE", "CLEAR_MASK", "DEFAULT")):
+        base = (14, 24, 32, 72, 9, 128, 16)[k]
+        out.append(bitfield_case("mh_cname%d" % k, "mixed", base, [uint_field("a", [(0, 3)]), uint_field("b", [(1, 1), (5, 7)], array=None)], default=default_spec(0x123 & ((1 << base) - 1), form="const", const_name=cname, syntax="=:"[k % 2]), name="Reg"))
+    # wide literal defaults (above u64::MAX) whose low half is small
+    for k, (base, val) in enumerate(((128, 1 << 127), (128, 0x55_0000_0000_0000_00AA), (100, (1 << 99) + 5), (65, 1 << 64), (127, (1 << 126) | (1 << 64) | 1), (72, 0xAB_0000_0000_0000_0000))):
+        out.append(bitfield_case("mh_wide%d" % k, "mixed", base, [uint_field("a", [(0, 3)])], default=default_spec(val, radix="hex" if k % 2 == 0 else "dec", syntax="=:"[k % 2]), name="Reg"))
+    # range lists with more than 32 entries
+    out.append(bitfield_case("mh_long64", "mixed", 64, [uint_field("rev", [(b, b) for b in reversed(range(64))])], name="Reg"))
+    out.append(bitfield_case("mh_long33", "mixed", 128, [uint_field("even", [(2 * b, 2 * b) for b in range(33)], array=arr(2, 1))], name="Reg"))
+    out.append(bitfield_case("mh_long40", "mixed", 128, [uint_field("mix", [(b * 3, b * 3 + (b % 2)) for b in range(40)]), bool_field("top", 127)], default=default_spec(0), name="Reg"))
+    out.append(bitfield_case("mh_long128", "mixed", 128, [uint_field("rev", [(b, b) for b in reversed(range(128))], access="rw")], name="Reg"))
     # one-bit fields spelled as a range (lo == hi)
     f1 = uint_field("x", [(3, 3)])
     f1["form"] = "bits"
